@@ -7,6 +7,8 @@ import (
 	"errors"
 	"fmt"
 	"strings"
+	"sync/atomic"
+	"time"
 
 	"github.com/advancedclimatesystems/gonnx"
 	"github.com/advancedclimatesystems/gonnx/ops"
@@ -125,7 +127,34 @@ func observeErr(err error) Observation {
 }
 
 // guard runs f and converts a panic into an observation.
-func guard(f func() Observation) (obs Observation) {
+// guard runs f, turns a panic into an observation, and does not wait for ever: a call that has not returned after guardLimit
+// is blocked inside the library (a deadlock - a load that waits for a goroutine that can never finish, a Run that waits for a
+// lock nobody releases). It is reported like a panic: the call neither returned a value nor an error. Once one call has hung, the
+// others of this process are given a few seconds only (the verdict is settled; the remaining cases are still reported).
+var (
+	guardLimit = 240 * time.Second
+	guardHung  atomic.Bool
+)
+
+func guard(f func() Observation) Observation {
+	done := make(chan Observation, 1)
+	go func() { done <- guardInline(f) }()
+	limit := guardLimit
+	if guardHung.Load() {
+		limit = 5 * time.Second
+	}
+	tm := time.NewTimer(limit)
+	defer tm.Stop()
+	select {
+	case o := <-done:
+		return o
+	case <-tm.C:
+		guardHung.Store(true)
+		return Observation{Kind: "panic", Note: fmt.Sprintf("the call did not return within %v: it is blocked inside the library (neither a value nor an error)", limit)}
+	}
+}
+
+func guardInline(f func() Observation) (obs Observation) {
 	defer func() {
 		if r := recover(); r != nil {
 			msg := fmt.Sprint(r)
